@@ -1053,6 +1053,9 @@ class Interp:
         a = self.val(A, s)
         if a.ndim == 1:
             return a
+        # the size of the terms an expanded determinant adds up (Hadamard bound): det(outer(w, w)) with |w| ~ 30 is the
+        # difference of terms of size 1e9
+        self.max_inter = max(self.max_inter, float(np.prod(np.linalg.norm(a[0], axis=-1))))
         if self.M == 1:
             return np.linalg.det(a[0])[None]
         return self.jet_det(a)
@@ -1072,6 +1075,7 @@ class Interp:
         A = e.ufl_operands[0]
         self._nofree(A)
         a = self.val(A, s)
+        self.max_inter = max(self.max_inter, float(np.prod(np.linalg.norm(a[0], axis=-1))))
         try:
             inv = self.jet_inv(a)
         except np.linalg.LinAlgError:
